@@ -28,6 +28,9 @@ func TestMain(m *testing.M) {
 type Case struct {
 	NP  int         `json:"np"`
 	Ops []refpkg.Op `json:"ops"`
+	// Late: the last package does not exist at the start, a defpkg step of the history creates it with defpackage
+	// and its :use, :export and :nicknames options
+	Late bool `json:"late,omitempty"`
 }
 
 var (
@@ -47,6 +50,23 @@ func token(op refpkg.Op, step int) string {
 func forms(op refpkg.Op, step int, cur int) (out []string) {
 	a := pkgNames[op.A]
 	cl, q1, q2 := "", "'", ""
+	if op.K == "defpkg" {
+		src := "(defpackage :" + a + " (:use :cl :c13cond"
+		for q := range pkgNames {
+			if op.Q&(1<<q) != 0 {
+				src += " :" + pkgNames[q]
+			}
+		}
+		src += ") (:nicknames \"" + a + "nick\")"
+		if names := refpkg.SplitNames(op.N); len(names) > 0 {
+			src += " (:export"
+			for _, n := range names {
+				src += " \"" + n + "\""
+			}
+			src += ")"
+		}
+		return []string{src + ")"}
+	}
 	if !op.Arg && cur != op.A {
 		out = append(out, "("+cl+"in-package :"+a+")")
 	}
@@ -102,6 +122,7 @@ type world struct {
 	scope *slip.Scope
 	np    int
 	cur   int
+	nick  bool     // the last package has a nickname: qualified names are also read through it
 	text  []string // the Lisp text executed so far
 }
 
@@ -314,27 +335,33 @@ func (w *world) probe(m *refpkg.World, names []string) string {
 				if private {
 					sep = "::"
 				}
-				src := pkgNames[p] + sep + n
-				if refpkg.IsFn(n) {
-					src = "(" + src + ")"
+				prefixes := []string{pkgNames[p]}
+				if w.nick && p == w.np-1 {
+					prefixes = append(prefixes, pkgNames[p]+"nick")
 				}
-				bound, val, bad := observe(evalForm(w.scope, src))
-				if bad != "" {
-					return fmt.Sprintf("from %s: %s => %s", neutral, src, bad)
-				}
-				must, mustFail, free := m.Qualified(p, n, private)
-				switch {
-				case mustFail:
-					if bound {
-						return fmt.Sprintf("from %s: %s => %s, expected a condition (not exported / not defined)", neutral, src, val)
+				for _, prefix := range prefixes {
+					src := prefix + sep + n
+					if refpkg.IsFn(n) {
+						src = "(" + src + ")"
 					}
-				case must != "":
-					if !bound || val != must {
-						return fmt.Sprintf("from %s: %s => %s, expected %s", neutral, src, show(bound, val), must)
+					bound, val, bad := observe(evalForm(w.scope, src))
+					if bad != "" {
+						return fmt.Sprintf("from %s: %s => %s", neutral, src, bad)
 					}
-				default:
-					if bound && !in(val, free) {
-						return fmt.Sprintf("from %s: %s => %s, expected a condition or one of %v", neutral, src, val, free)
+					must, mustFail, free := m.Qualified(p, n, private)
+					switch {
+					case mustFail:
+						if bound {
+							return fmt.Sprintf("from %s: %s => %s, expected a condition (not exported / not defined)", neutral, src, val)
+						}
+					case must != "":
+						if !bound || val != must {
+							return fmt.Sprintf("from %s: %s => %s, expected %s", neutral, src, show(bound, val), must)
+						}
+					default:
+						if bound && !in(val, free) {
+							return fmt.Sprintf("from %s: %s => %s, expected a condition or one of %v", neutral, src, val, free)
+						}
 					}
 				}
 			}
@@ -358,8 +385,8 @@ func in(s string, set []string) bool {
 func namesOf(c Case) []string {
 	seen := map[string]bool{}
 	for _, op := range c.Ops {
-		if op.N != "" {
-			seen[op.N] = true
+		for _, n := range refpkg.SplitNames(op.N) {
+			seen[n] = true
 		}
 	}
 	var out []string
@@ -381,7 +408,12 @@ func runHistory(c Case) (res *h.Result) {
 	}
 	names := namesOf(c)
 	m := refpkg.New(c.NP)
-	w := setup(c.NP)
+	np0 := c.NP
+	if c.Late {
+		np0--
+		m.Absent = map[int]bool{np0: true}
+	}
+	w := setup(np0)
 	defer toNeutral()
 
 	// bookkeeping for the non-trivial rule: some (package, name) resolved to another package's
@@ -398,7 +430,7 @@ func runHistory(c Case) (res *h.Result) {
 		return res
 	}
 	for i, op := range c.Ops {
-		if op.A >= c.NP || op.Q >= c.NP {
+		if op.A >= c.NP || (op.Q >= c.NP && op.K != "defpkg") {
 			continue
 		}
 		before := map[key]*refpkg.Cell{}
@@ -434,6 +466,10 @@ func runHistory(c Case) (res *h.Result) {
 			}
 		}
 		w.cur = m.Cur
+		if op.K == "defpkg" {
+			w.np = c.NP
+			w.nick = true
+		}
 		if msg := w.probe(m, names); msg != "" {
 			return fail(i, msg)
 		}
@@ -645,6 +681,7 @@ func TestC13(t *testing.T) {
 		"two-hop visibility, two used packages exporting the same name and CL name-conflict situations are don't-care or outside the generated domain). " +
 		"Non-trivial: some package resolved a name to another package's definition and a later unuse/unexport/makunbound/fmakunbound changed that resolution, " +
 		"or a package defined a name that a used package exports without having bound it. Distinct by history. " +
+		"Sub-properties defpackage-history / enum-defpackage: the third package does not exist at the start and is created in the middle of the history by (defpackage ... (:use ...) (:export ...) (:nicknames ...)); qualified names are also read through the nickname (non-trivial under the same rule, and the history must contain the defpackage step). " +
 		"Sub-property import: a name imported with Package.Import (Go extension interface) keeps resolving to the owner's current definition through every sequence of 4 use/unuse/export/unexport/redefinition steps (non-trivial: the sequence contains an unuse or unexport).")
 	h.Assume("the reference model internal/refpkg (about 250 lines, recomputes everything from the graph on every query)")
 	h.Assume("steps and probes are Lisp text evaluated through slip.ReadString/Eval; in-package is used to move between packages; packages are removed with slip.RemovePackage after each history and *features* / CL's user list are reset by the harness")
@@ -655,6 +692,9 @@ func TestC13(t *testing.T) {
 	h.RunProp(t, enumPlace, 0)
 	h.RunProp(t, importProp, 0)
 	h.RunProp(t, history, h.N(8000, 100000))
+	h.RunProp(t, defpkgEnum, 0)
+	h.RunProp(t, defpkgHistory, h.N(3000, 30000))
+	h.Enumerate(t, defpkgEnum, enumerateDefpkg)
 
 	lv, lm, lp := 4, 3, 5
 	if h.Thorough() {
